@@ -65,7 +65,10 @@ var c14Modes = []string{"none", "d1", "d2", "d1-then-d2", "d2-then-d1", "concurr
 	// ... or with the second duty addressed by the account's public key followed by extra bytes.
 	"d1-then-d2-by-long-key", "d2-then-d1-by-long-key",
 	// ... or with the FIRST duty arriving inside a batch (the account has earlier history from single requests).
-	"d1-batched-then-d2", "d2-batched-then-d1", "d1-batched-then-d2-batched"}
+	"d1-batched-then-d2", "d2-batched-then-d1", "d1-batched-then-d2-batched",
+	// ... or with the first duty in a batch whose LAST entry is one the rules refuse (a repeat of an old attestation of
+	// another account).
+	"d1-batched-before-refused-then-d2", "d2-batched-before-refused-then-d1"}
 
 // C14 routes two conflicting duties across the instances of a distributed account in every way and
 // counts the valid partial signatures each duty collects.
@@ -229,7 +232,7 @@ var c14Filler struct {
 }
 
 // c14SignBatched sends the duty in a two-entry batch with a fresh attestation of the instance's own nd account.
-func c14SignBatched(inst *rig.Instance, account string, d c14Duty, first bool) []byte {
+func c14SignBatched(inst *rig.Instance, account string, d c14Duty, first bool, refusedFiller ...bool) []byte {
 	if d.att == nil {
 		return c14Sign(inst, account, d) // proposals have no batch endpoint
 	}
@@ -238,6 +241,10 @@ func c14SignBatched(inst *rig.Instance, account string, d c14Duty, first bool) [
 	e := c14Filler.epoch
 	c14Filler.mu.Unlock()
 	filler := c14Att(e, e+1, 0xcc).att
+	if len(refusedFiller) > 0 && refusedFiller[0] {
+		// Far below what the filler account has signed by now.
+		filler = c14Att(1, 2, 0xce).att
+	}
 	names := []string{account, "N/acct0"}
 	data := []*rules.SignBeaconAttestationData{d.att, filler}
 	pos := 0
@@ -309,6 +316,14 @@ func c14Route(c *rig.Cluster, ids []uint64, account string, modes []int, d1, d2 
 			case "d1-batched-then-d2-batched":
 				put(sigs1, id, c14SignBatched(inst, account, d1, true))
 				put(sigs2, id, c14SignBatched(inst, account, d2, false))
+			case "d1-batched-before-refused-then-d2":
+				c14SignBatched(inst, account, c14Stale(d1), true) // the filler account gets some history first
+				put(sigs1, id, c14SignBatched(inst, account, d1, true, true))
+				put(sigs2, id, c14Sign(inst, account, d2))
+			case "d2-batched-before-refused-then-d1":
+				c14SignBatched(inst, account, c14Stale(d2), true)
+				put(sigs2, id, c14SignBatched(inst, account, d2, true, true))
+				put(sigs1, id, c14Sign(inst, account, d1))
 			case "d1-stale-batch-d2":
 				put(sigs1, id, c14Sign(inst, account, d1))
 				c14SignBatched(inst, account, c14Stale(d1), id%2 == 0)
